@@ -1,7 +1,7 @@
 (* Props/C13.v — stringutil fold-search and split-trim agree with their reference
    definitions.  [fold] is unicode.SimpleFold, [trim] strings.TrimSpace, [split]
    strings.Split: arbitrary functions, with the hypotheses spelled out. *)
-From Verif Require Import Base.GoPrim Base.Strings Std.Utf8 Model.StringUtil Proofs.StringUtilProofs.
+From Verif Require Import Base.GoPrim Base.Strings Std.Utf8 Model.StringUtil Proofs.StringUtilProofs Proofs.Utf8Proofs Proofs.ContainsFoldProofs.
 
 (* SplitTrimmed(s, sep) is exactly the non-empty trimmed pieces of
    Split(TrimSpace(s), sep), in order; the result is never nil; the in-place
@@ -32,6 +32,33 @@ Proof.
   - apply (contains_loop_sound fold _ sub _ s 0 H).
 Qed.
 
+
+(* the main clause: for valid UTF-8 operands (utf8_of = the encoding of a list of Unicode
+   scalar values), the needle free of U+FFFD, ContainsFold(s, sub) is true IFF s has a
+   window of len(sub) bytes, starting at a rune boundary (after the runes P), that equals
+   sub under simple case folding.  Hypotheses on unicode.SimpleFold (checked against the
+   real tables for every rune on every run): its orbit walks close, orbit membership is
+   symmetric, U+FFFD is alone in its orbit. *)
+Theorem C13_fold_iff : forall fold,
+  (forall first, orbit_closes fold first) ->
+  (forall a b, in_orbit fold a b = Ret true -> in_orbit fold b a = Ret true) ->
+  (forall r, r <> rune_error -> in_orbit fold r rune_error = Ret false) ->
+  forall S B, Forall scalar S -> Forall scalar B -> ~ In rune_error B ->
+  contains_fold fold (utf8_of S) (utf8_of B) = Ret true <->
+  exists P R', S = P ++ R' /\ len (utf8_of B) <= len (utf8_of R') /\
+               equal_fold fold (firstn (Z.to_nat (len (utf8_of B))) (utf8_of R')) (utf8_of B) = true.
+Proof. exact contains_fold_iff. Qed.
+
+(* such a window always ends at a rune boundary too *)
+Theorem C13_window_boundary : forall fold,
+  (forall first, orbit_closes fold first) ->
+  (forall a b, in_orbit fold a b = Ret true -> in_orbit fold b a = Ret true) ->
+  (forall r, r <> rune_error -> in_orbit fold r rune_error = Ret false) ->
+  forall R' B k, Forall scalar R' -> ~ In rune_error B -> (k <= length (utf8_of R'))%nat ->
+  forall2b (same_orbit fold) (runes_of (firstn k (utf8_of R'))) B = true ->
+  exists W T, R' = W ++ T /\ length (utf8_of W) = k.
+Proof. exact window_boundary. Qed.
+
 (* the ASCII clause, in full: ContainsFold = Contains(ToLower(s), ToLower(sub)) *)
 Theorem C13_ascii : forall fold,
   (forall a b, 0 <= a < 128 -> 0 <= b < 128 -> in_orbit fold a b = Ret (leq a b)) ->
@@ -58,7 +85,24 @@ Example C13_examples :
   split_trimmed (fun s => filter (fun c => negb (c =? 32)) s) (fun s _ => split_on 44 s) [32;97;44;32;44;98;32] [44] = Some [[97];[98]].
 Proof. vm_compute. repeat split; reflexivity. Qed.
 
+(* the hypotheses of C13_fold_iff are satisfiable (ASCII case folding extended by the identity),
+   and with them both directions of the iff are exercised on a non-ASCII haystack *)
+Example C13_fold_iff_inhabited :
+  (forall first, orbit_closes fold_az first) /\
+  (forall a b, in_orbit fold_az a b = Ret true -> in_orbit fold_az b a = Ret true) /\
+  (forall r, r <> rune_error -> in_orbit fold_az r rune_error = Ret false).
+Proof. exact fold_az_hyps. Qed.
+
+Example C13_fold_iff_instance :
+  (* "\u00e9Ab\u20ac" contains "aB" at the rune boundary after U+00E9 (2 bytes in) *)
+  contains_fold fold_az (utf8_of [233; 65; 98; 8364]) (utf8_of [97; 66]) = Ret true /\
+  equal_fold fold_az (firstn 2 (utf8_of [65; 98; 8364])) (utf8_of [97; 66]) = true /\
+  contains_fold fold_az (utf8_of [233; 65; 99; 8364]) (utf8_of [97; 66]) = Ret false.
+Proof. vm_compute. repeat split; reflexivity. Qed.
+
 Print Assumptions C13_split.
 Print Assumptions C13_total.
 Print Assumptions C13_fold_sound.
 Print Assumptions C13_ascii.
+Print Assumptions C13_fold_iff.
+Print Assumptions C13_window_boundary.
